@@ -44,7 +44,7 @@ Proof.
   pose proof (i_size _ _ HI) as Hsz. fold R in Hsz.
   unfold unblock_ok. destruct (snd (unblock R)) eqn:B; cbn [b2z].
   2: { pose proof (U1 (eq_refl false)) as E1. rewrite E1. apply words_eqb_refl. }
-  destruct (U4 eq_refl) as (s1 & rest & L & Es & Hneg & ER1 & HL & Hfit & Hend & Hbd). rewrite ER1.
+  destruct (U4 eq_refl) as (s1 & rest & L & Es & Hneg & ER1 & HL & Hfit & Hend & Hbd & _ & _ & _). rewrite ER1.
   rewrite Es in T. inversion T as [| h0 t0 s0 sl0 Hp1 G1 T2]; subst h0 t0 s0 sl0.
   assert (Hne : r_head R <> r_tail R) by (intro E; pose proof (U2 E); discriminate).
   replace (r_head R =? r_tail R) with false by lia. cbn [negb andb].
